@@ -98,19 +98,35 @@ func Load(repo string, overlay map[string][]byte) (*World, error) {
 		Overlay: overlay,
 		Env:     append(os.Environ(), "GOWORK=off", "GOFLAGS=-mod=mod", "GOPROXY=off", "GOSUMDB=off", "GOTOOLCHAIN=local"),
 	}
-	pkgs, err := packages.Load(cfg, "./pkg/...", "./kwok/...")
-	if err != nil {
-		return nil, fmt.Errorf("packages.Load: %w", err)
-	}
-	if len(pkgs) == 0 {
-		return nil, fmt.Errorf("no packages loaded from %s", repo)
-	}
+	var pkgs []*packages.Package
 	var errs []string
-	packages.Visit(pkgs, nil, func(p *packages.Package) {
-		for _, e := range p.Errors {
-			errs = append(errs, e.Error())
+	for attempt := 0; attempt < 2; attempt++ {
+		var err error
+		pkgs, err = packages.Load(cfg, "./pkg/...", "./kwok/...")
+		if err != nil {
+			return nil, fmt.Errorf("packages.Load: %w", err)
 		}
-	})
+		if len(pkgs) == 0 {
+			return nil, fmt.Errorf("no packages loaded from %s", repo)
+		}
+		errs = nil
+		packages.Visit(pkgs, nil, func(p *packages.Package) {
+			for _, e := range p.Errors {
+				errs = append(errs, e.Error())
+			}
+		})
+		// a trimmed Go build cache (entries of cgo-processed std packages evicted while their index survived) makes the
+		// first `go list -compiled` fail and repairs itself doing so: this is not a fact about the repository, so load once more
+		stale := false
+		for _, e := range errs {
+			if strings.Contains(e, "cache entry not found") || strings.Contains(e, "loading compiled Go files from cache") {
+				stale = true
+			}
+		}
+		if !stale {
+			break
+		}
+	}
 	if len(errs) > 0 {
 		sort.Strings(errs)
 		if len(errs) > 10 {
